@@ -29,11 +29,11 @@ ENGINES = [
 # id -> dict(level, design, text, note, technique)
 CHECKS = {
     "C01": dict(level="model_checking", design="4/C01",
-                text="Every batch of the stated small-scope domain (all fit/no-fit boundary lengths x message types x batch sizes 1..3 x 21 small (min,max) contexts and batch sizes 1..2 x 9 mid-size/realistic contexts, each also on an encoder that already made one of ten kinds of earlier call (seven completed ones, two aborted by an exception from the packet source, one with an empty batch), typed prototypes as singles/pairs/triples x 5 contexts x 3 encode overloads, header-field sweeps, 65535-byte extremes alone, after a type change and after a packet of the same type, frames larger than the largest message) is encoded by a real Encoder and decoded by a fresh real Decoder; the decoded packets are compared field by field with the inputs by harness code. Exhaustive within the bounds, no sampling.",
+                text="Every batch of the stated small-scope domain (all fit/no-fit boundary lengths x message types x batch sizes 1..3 x 21 small (min,max) contexts and batch sizes 1..2 x 9 mid-size/realistic contexts, each also on an encoder that already made one of ten kinds of earlier call (seven completed ones, two aborted by an exception from the packet source, one with an empty batch), typed prototypes as singles/pairs/triples x 5 contexts x 3 encode overloads, header-field sweeps, 65535-byte extremes alone, after a type change and after a packet of the same type, frames larger than the largest message) is encoded by a real Encoder and decoded by a fresh real Decoder (frames handed over at addresses of varying alignment); also very long batches (70000 packets in one call), identical neighbouring packets, segmentation bits / segment-type attribute on single packets at every position, payloads re-typed in place after setPayload; the decoded packets are compared field by field with the inputs by harness code. Exhaustive within the bounds, no sampling.",
                 note="Bounds: lengths around each boundary, one content pattern per packet; compares through public getters only; oracle code shares nothing with the library.",
                 technique="bounded exhaustive enumeration of executions of the real encoder+decoder (small-scope), independent field-by-field oracle"),
     "C07": dict(level="model_checking", design="4/C07",
-                text="Same enumeration as C01 plus message type 0 and payload type byte 0 as batch members, the empty batch and extra minimum sizes; every returned frame is parsed by an independent frame walker (size bounds, >=1 complete message, tiling, zero padding only up to min, every payload byte exactly once and in order).",
+                text="Same enumeration as C01 plus message type 0 and payload type byte 0 as batch members, the empty batch, extra minimum sizes and packets with protocol versions of their own; every returned frame is parsed by an independent frame walker (size bounds, >=1 complete message, tiling, zero padding only up to min, every payload byte exactly once and in order).",
                 note="Independent walker in ref/wire.h (no library code); generated packets never use payload-type byte 0 so padding is unambiguous.",
                 technique="bounded exhaustive enumeration of encoder executions, independent frame-walker oracle"),
     "C08": dict(level="model_checking", design="4/C08",
@@ -81,7 +81,7 @@ CHECKS = {
                 note="CAN CRC values, frames with bytes after the declared payload, partial bus-status entries and status frames with data type FF00 are outside what the property fixes and are only checked for memory safety (C02).",
                 technique="bounded exhaustive enumeration of inputs against an independent reference conversion"),
     "C11": dict(level="model_checking", design="4/C11",
-                text="Table-driven: 24 classes, ~235 setter/getter pairs; for every field ALL values (<= 16 bits) or single bits + byte lanes + extremes + values relative to the current state (wider), from default / all-zero / all-ones / counting prior object states (payload classes also with data bytes): after set, get returns the value, every non-overlapping field's getter is unchanged and raw bytes are unchanged outside the bits an independent layout table assigns to the field; booleans additionally through set/clear sequences, every flag setter with every mask value (incl. multi-bit masks) from every prior flag state, and Packet::setPayload from every prior state (nothing or any of 23 payloads held, four of which report bus errors) x 23 new payloads, the header fields compared with what was written. Payload classes are exercised both as stand-alone objects and as the object a Packet holds after setPayload (reached through getPayload and a cast); every getter is called on the object before the write.",
+                text="Table-driven: 24 classes, ~235 setter/getter pairs; for every field ALL values (<= 16 bits) or single bits + byte lanes + extremes + values relative to the current state (wider), from default / all-zero / all-ones / counting prior object states (payload classes also with data bytes): after set, get returns the value, every non-overlapping field's getter is unchanged and raw bytes are unchanged outside the bits an independent layout table assigns to the field; booleans additionally through set/clear sequences, every flag setter with every mask value (incl. multi-bit masks) from every prior flag state, and Packet::setPayload from every prior state (nothing or any of 23 payloads held, four of which report bus errors) x 23 new payloads, the header fields compared with what was written. Every payload class table also carries the base-class type fields (message type, raw payload type byte). Payload classes are exercised both as stand-alone objects and as the object a Packet holds after setPayload (reached through getPayload and a cast); every getter is called on the object before the write.",
                 note="Wide fields are covered bit-lane-wise, which decides bit-sliced accessors (byte swaps, shifts, masks); the overlap relation (legitimate aliases) is derived from the independent layout table.",
                 technique="bounded exhaustive enumeration class x field x value x prior state on the real objects"),
     "C12": dict(level="model_checking", design="4/C12",
@@ -89,7 +89,7 @@ CHECKS = {
                 note="The order of the two TECMP temperature bytes could not be cross-checked and is listed as an assumption in the evidence.",
                 technique="bounded exhaustive enumeration class x field x value against an independent layout table"),
     "C13": dict(level="model_checking", design="4/C13",
-                text="Every builder (CAN/CAN-FD all lengths 0..255 x 4 header variants incl. the RTR/RRS bit set first, LIN all lengths 0..255, Ethernet/analog boundary lengths to 65529, capture-module 5^4 string combinations x vendor lengths and each section alone at 17 boundary lengths, interface stream-id counts x vendor lengths) after each kind of prior state (earlier setData with shorter / longer / same-length data or with the same TOTAL size and moved section boundaries, or an object constructed from a raw image with trailing bytes; each with and without every getter being called between the two builder calls; stand-alone objects and objects held inside a Packet; the LIN builder also with the correct classic / enhanced checksum of the data held before; the builder call under test aborted by the failure of its n-th allocation and repeated); checked: getters, preserved header fields, independent wire image incl. NUL termination and even padding, DLC table, own validity check, real Decoder, raw bytes equal to those of a fresh object with the same final content.",
+                text="Every builder (CAN/CAN-FD all lengths 0..255 x 4 header variants incl. the RTR/RRS bit set first, LIN all lengths 0..255, Ethernet/analog boundary lengths to 65529, capture-module 5^4 string combinations (empty strings also as null string_views) x vendor lengths and each section alone at 17 boundary lengths, interface stream-id counts x vendor lengths) after each kind of prior state (earlier setData with shorter / longer / same-length data or with the same TOTAL size and moved section boundaries, or an object constructed from a raw image with trailing bytes; each with and without every getter being called between the two builder calls; stand-alone objects and objects held inside a Packet; the LIN builder also with the correct classic / enhanced checksum of the data held before; the builder call under test aborted by the failure of its n-th allocation and repeated); checked: getters, preserved header fields, independent wire image incl. NUL termination and even padding, DLC table, own validity check, real Decoder, raw bytes equal to those of a fresh object with the same final content.",
                 note="DLC is only constrained for representable lengths.",
                 technique="bounded exhaustive enumeration of builder inputs x prior object contents with independent layout oracle and fresh-object differential"),
     "C14": dict(level="model_checking", design="4/C14",
@@ -97,7 +97,7 @@ CHECKS = {
                 note="Equality must agree with field-by-field comparison only for non-empty payloads (as the property states).",
                 technique="exhaustive enumeration of object pairs x value operations (2-step histories) on the real classes"),
     "C16": dict(level="model_checking", design="4/C16",
-                text="34-operation alphabet over 3 devices x 2 interfaces x 2 message variants (which move timestamps and uptime / counters in opposite directions; one of them with the header fields a reassembled packet carries; incl. data packets and status messages of other kinds, which must change nothing): unmerged tree of copied real Status objects to depth 4 (quick) / 5 (thorough) and to depth 6 / 8 over a sharp 13-operation sub-alphabet, every prefix judged, plus BFS merged on the full ordered observable state run to its fixpoint (all 109 591 reachable states of the alphabet); after every operation counts, lookups by id and every getter/byte of every stored packet are compared with a latest-message map. The sharp tree also runs with every lookup and getter exercised after EVERY operation of the history; four long histories pass every power of two up to 2^17 updates; update calls aborted by the failure of their n-th allocation (every n) after every history of <= 2 (thorough 3) operations must leave the tracker equal to the map without or with the message, and the repeated update and one more operation are judged.",
+                text="34-operation alphabet (incl. refresh operations: update with a packet the tracker itself stores) over 3 devices x 2 interfaces x 2 message variants (which move timestamps and uptime / counters in opposite directions; one of them with the header fields a reassembled packet carries; incl. data packets and status messages of other kinds, which must change nothing): unmerged tree of copied real Status objects to depth 4 (quick) / 5 (thorough) and to depth 6 / 8 over a sharp 13-operation sub-alphabet, every prefix judged, plus BFS merged on the full ordered observable state run to its fixpoint (all 109 591 reachable states of the alphabet); after every operation counts, lookups by id and every getter/byte of every stored packet are compared with a latest-message map. The sharp tree also runs with every lookup and getter exercised after EVERY operation of the history; four long histories pass every power of two up to 2^17 updates; update calls aborted by the failure of their n-th allocation (every n) after every history of <= 2 (thorough 3) operations must leave the tracker equal to the map without or with the message, and the repeated update and one more operation are judged.",
                 note="Vector order is not constrained; 'random beyond the bound' is not done (the completed bound is reported).",
                 technique="explicit-state model checking (operation-sequence tree + BFS with state merging) of the real object against a reference model"),
     "C20": dict(level="model_checking", design="4/C20",
@@ -105,7 +105,7 @@ CHECKS = {
                 note="Two fill patterns decide dependence on uninitialised content; valgrind decides definedness on the executed paths only. MSan is unusable here without an instrumented libstdc++.",
                 technique="exhaustive enumeration of a workload list x environment answers for uninitialised memory (differential) + definedness monitor on every output"),
     "C19": dict(level="model_checking", design="4/C19",
-                text="Five thread bodies (encoder, decoder, static TECMP decoder, status tracker, builders/values), each on its own objects and parameterised by a thread-unique value, plus a hand-over pair (a decoder's owner goes on decoding while another thread reads, copies, feeds to its own Status / Encoder and destroys the packets that decoder returned earlier; rebuilt before every execution) and a copy family (each thread works on its own copy of one configured prototype encoder / decoder with an open message / status tracker), run as real pthreads under a serialising scheduler; scheduling points are inserted by the compiler (sanitizer coverage). Explored exhaustively: all interleavings at API level for all 15 body pairs, all schedules with <= 1 preemption at function-entry level for all pairs and at basic-block level for same-body pairs, <= 2 preemptions for two same-body pairs (thorough: <= 2 for all pairs, <= 1 at basic-block level for all pairs, 3-thread sets). Per schedule: digests equal the solo run (reference digests from a cold child process), ASan clean, and a confinement monitor over every library load/store reports any granule touched by two threads with a write. A separate free-running ThreadSanitizer pass covers what a serialising scheduler hides from a race detector.",
+                text="Five thread bodies (encoder, decoder, static TECMP decoder, status tracker, builders/values), each on its own objects and parameterised by a thread-unique value, plus a hand-over pair (a decoder's owner goes on decoding while another thread reads, copies, feeds to its own Status / Encoder and destroys the packets that decoder returned earlier; rebuilt before every execution) and a copy family (each thread works on its own copy of one configured prototype encoder / decoder with an open message / status tracker), a shared-input family (the threads' inputs - const packets never serialised before, const frame buffers - are the same objects), run as real pthreads under a serialising scheduler; scheduling points are inserted by the compiler (sanitizer coverage). Explored exhaustively: all interleavings at API level for all 15 body pairs, all schedules with <= 1 preemption at function-entry level for all pairs and at basic-block level for same-body pairs, <= 2 preemptions for two same-body pairs (thorough: <= 2 for all pairs, <= 1 at basic-block level for all pairs, 3-thread sets). Per schedule: digests equal the solo run (reference digests from a cold child process), ASan clean, and a confinement monitor over every library load/store reports any granule touched by two threads with a write. A separate free-running ThreadSanitizer pass covers what a serialising scheduler hides from a race detector.",
                 note="Preemption inside uninstrumented libstdc++/libc and weak-memory effects are not modelled; k > 2 at function granularity is not explored.",
                 technique="stateless model checking: preemption-bounded exhaustive schedule exploration of the real code under a controlled scheduler, plus free-running TSan pass"),
 }
